@@ -707,6 +707,11 @@ func (t *Taint) scan(f *ssa.Function) {
 			if fv == nil || !carries(fv.Type()) || t.fields[fv] != nil {
 				return
 			}
+			if al, ok := fa.X.(*ssa.Alloc); ok && searchKeyOnly(al) {
+				// a struct literal built only to be looked up (slices.Index(list, T{…})): it never becomes
+				// part of any state, so what it holds says nothing about the field elsewhere
+				return
+			}
 			if o := t.of(x.Val); o != nil {
 				if ok, _ := t.boundedAt(x.Val, x.Block(), 0); !ok || isContainer(fv.Type()) {
 					t.fields[fv] = &origin{Desc: "stored unbounded into " + typeShort(derefType(fa.X.Type())) + "." + fv.Name() + " in " + fname(f), Pos: x.Pos(), Prev: o}
@@ -951,4 +956,49 @@ func freeVarFieldStored(fv *ssa.FreeVar, k int) bool {
 		}
 	}
 	return false
+}
+
+// searchKeyOnly: the local struct is written field by field, loaded as a whole, and the loaded value is used only as
+// the key of a read-only search (slices.Index, slices.Contains, …) or compared: it is never stored, appended, sent,
+// returned or handed to module code.
+func searchKeyOnly(al *ssa.Alloc) bool {
+	searches := map[string]bool{"Index": true, "Contains": true, "IndexFunc": true, "ContainsFunc": true, "Equal": true, "BinarySearch": true}
+	loads := 0
+	for _, ref := range *al.Referrers() {
+		switch x := ref.(type) {
+		case *ssa.FieldAddr:
+			for _, r2 := range *x.Referrers() {
+				switch r2.(type) {
+				case *ssa.Store, *ssa.UnOp, *ssa.DebugRef:
+				default:
+					return false
+				}
+			}
+		case *ssa.DebugRef:
+		case *ssa.UnOp:
+			if x.Op != token.MUL {
+				return false
+			}
+			loads++
+			for _, r2 := range *x.Referrers() {
+				switch y := r2.(type) {
+				case *ssa.DebugRef:
+				case *ssa.BinOp:
+					if y.Op != token.EQL && y.Op != token.NEQ {
+						return false
+					}
+				case *ssa.Call:
+					pk, nm := calleePkgName(y)
+					if pk != "slices" || !searches[nm] {
+						return false
+					}
+				default:
+					return false
+				}
+			}
+		default:
+			return false
+		}
+	}
+	return loads > 0
 }
